@@ -180,8 +180,12 @@ class MADisjunctiveConditionsRemover(DisjunctiveConditionsRemover):
                     if na is not None:
                         new_to_old[na] = None
                         new_agent.add_action(na)
-                new_agent.add_fluent(fake_fluent, default_initial_value=False)
-                new_problem.add_agent(new_agent)
+                # The fake fluent is mentioned by the (shared) goals and it is reset by
+                # the actions of every agent, so it must be visible to all of them:
+                # it belongs to the environment, not to the agent being processed.
+                new_problem.ma_environment.add_fluent(
+                    fake_fluent, default_initial_value=False
+                )
                 new_fluents.append(fake_fluent)
                 goal = env.expression_manager.FluentExp(fake_fluent)
                 if goal not in new_problem.goals:
